@@ -83,6 +83,40 @@ Section Inv.
                    |split; [reflexivity|intros Hne; exfalso; apply Hne; reflexivity]]].
 
   (** *** downloadBlob (repaired: verify before rename) *)
+  Lemma download_from_spec st d e old st' r tr :
+    download_from H true k st d e old = (st', r, tr) ->
+    lookup N.eqb d (s_blobs st) = None ->
+    blobs_ok st ->
+    blobs_ok st' /\ blobs_grow st st' /\ s_man st' = s_man st
+    /\ (r <> DErr -> exists c, lookup N.eqb d (s_blobs st') = Some c /\ H c = d).
+  Proof.
+    unfold download_from. intros Hd Hl Hok.
+    destruct (match d_parts old with
+              | [] => match be_head e with None => None | Some total => Some (layout k total, total, true) end
+              | p :: ps0 => Some (p :: ps0, sum_sizes (p :: ps0), false)
+              end) as [[[ps total] headed]|] eqn:Hprep.
+    2:{ injection Hd as <- <- <-. derr_case Hok. }
+    destruct (negb (be_direct e)).
+    { injection Hd as <- <- <-. derr_case Hok. }
+    destruct (run_parts k ps _ (be_chunks e)) as [[[ps1 f1] ok] rq] eqn:Hrun.
+    destruct (negb ok).
+    { injection Hd as <- <- <-. derr_case Hok. }
+    cbn [andb] in Hd. destruct (negb (N.eqb (H f1) d)) eqn:Hv.
+    { injection Hd as <- <- <-. derr_case Hok. }
+    apply negb_false_iff, N.eqb_eq in Hv.
+    injection Hd as <- <- <-. unfold add_blob, drop_dl. cbn [s_blobs s_man s_dl].
+    split; [|split; [|split; [reflexivity|]]].
+    + intros d' c'. cbn [s_blobs]. destruct (N.eq_dec d' d) as [->|Hne].
+      * rewrite lookup_set_same. intros [= <-]. exact Hv.
+      * rewrite lookup_set_other by exact Hne. apply Hok.
+    + intros d' c' Hl'. cbn [s_blobs]. destruct (N.eq_dec d' d) as [->|Hne]; [congruence|].
+      rewrite lookup_set_other by exact Hne. exact Hl'.
+    + intros _. exists f1. rewrite lookup_set_same. split; [reflexivity|exact Hv].
+  Qed.
+
+  Lemma put_dl_blobs d x st : s_blobs (put_dl d x st) = s_blobs st /\ s_man (put_dl d x st) = s_man st.
+  Proof. unfold put_dl. destruct (d_file x), (d_parts x); split; reflexivity. Qed.
+
   Lemma download_blob_spec st d e st' r tr :
     download_blob H true k st d e = (st', r, tr) ->
     blobs_ok st ->
@@ -94,27 +128,14 @@ Section Inv.
     - injection Hd as <- <- <-. repeat split; auto using blobs_grow_refl.
       intros _. exists c. split; [exact Hl|]. apply Hok. exact Hl.
     - set (old := match lookup N.eqb d (s_dl st) with Some x => x | None => mkDl None [] end) in *.
-      destruct (match d_parts old with
-                | [] => match be_head e with None => None | Some total => Some (layout k total, total, true) end
-                | p :: ps0 => Some (p :: ps0, sum_sizes (p :: ps0), false)
-                end) as [[[ps total] headed]|] eqn:Hprep.
-      2:{ injection Hd as <- <- <-. derr_case Hok. }
-      destruct (negb (be_direct e)).
-      { injection Hd as <- <- <-. derr_case Hok. }
-      destruct (run_parts k ps _ (be_chunks e)) as [[[ps1 f1] ok] rq] eqn:Hrun.
-      destruct (negb ok).
-      { injection Hd as <- <- <-. derr_case Hok. }
-      cbn [andb] in Hd. destruct (negb (N.eqb (H f1) d)) eqn:Hv.
-      { injection Hd as <- <- <-. derr_case Hok. }
-      apply negb_false_iff, N.eqb_eq in Hv.
-      injection Hd as <- <- <-. unfold add_blob, drop_dl. cbn [s_blobs s_man s_dl].
-      split; [|split; [|split; [reflexivity|]]].
-      + intros d' c'. cbn [s_blobs]. destruct (N.eq_dec d' d) as [->|Hne].
-        * rewrite lookup_set_same. intros [= <-]. exact Hv.
-        * rewrite lookup_set_other by exact Hne. apply Hok.
-      + intros d' c' Hl'. cbn [s_blobs]. destruct (N.eq_dec d' d) as [->|Hne]; [congruence|].
-        rewrite lookup_set_other by exact Hne. exact Hl'.
-      + intros _. exists f1. rewrite lookup_set_same. split; [reflexivity|exact Hv].
+      destruct (usable old).
+      + exact (download_from_spec _ _ _ _ _ _ _ Hd Hl Hok).
+      + destruct (put_dl_blobs d (mkDl (d_file old) []) st) as [Eb Em].
+        destruct (download_from_spec _ _ _ _ _ _ _ Hd) as [H1 [H2 [H3 H4]]].
+        * rewrite Eb. exact Hl.
+        * intros d' c'. rewrite Eb. apply Hok.
+        * split; [exact H1|]. split; [|split; [congruence|exact H4]].
+          intros d' c' Hc. apply H2. rewrite Eb. exact Hc.
   Qed.
 
   (** *** the download loop of PullModel *)
